@@ -138,6 +138,17 @@ def prove(pc, goal, timeout_ms, cross=False):
         status, backend, model, reason = 'failed', 'z3-5.1', so.model(), ''
     else:
         status, backend, model, reason = 'undecided', 'z3-5.1', None, so.reason_unknown()
+        # a time-out under load must not flip a verdict: one more one-shot attempt with a 4x budget and another seed
+        so2 = z3.Solver()
+        so2.set('timeout', timeout_ms * 4)
+        so2.set('random_seed', 7)
+        so2.add(*pc)
+        so2.add(z3.Not(g))
+        r2 = so2.check()
+        if r2 == z3.unsat:
+            status, backend, reason, so = 'discharged', 'z3-5.1(retry)', '', so2
+        elif r2 == z3.sat:
+            status, backend, model, reason, so = 'failed', 'z3-5.1(retry)', so2.model(), '', so2
     if status == 'undecided' or cross:
         smt = so.to_smt2()
         others = run_external(smt, max(10, timeout_ms // 1000))
